@@ -73,11 +73,18 @@ pub open spec fn first_match<C: ServerContext>(hs: Seq<ApiEndpoint<C>>, version:
 /// router.rs: find_handler_matching_version = `handlers.into_iter().find(|h| h.versions.matches(version))`.
 /// Iterator::find has no vstd contract; this contract is what Kani unit K6 proves of the REAL function
 /// (first element whose range contains the version; None iff none) for lists of up to three.
+/// what `handlers.into_iter()` goes through: a slice / Vec in order, or the zero-or-one element of an Option
+pub trait HandlerSource<'a, C: ServerContext>: Sized { spec fn items(self) -> Seq<ApiEndpoint<C>>; }
+impl<'a, C: ServerContext> HandlerSource<'a, C> for &'a [ApiEndpoint<C>] { open spec fn items(self) -> Seq<ApiEndpoint<C>> { self@ } }
+impl<'a, C: ServerContext> HandlerSource<'a, C> for &'a Vec<ApiEndpoint<C>> { open spec fn items(self) -> Seq<ApiEndpoint<C>> { self@ } }
+impl<'a, C: ServerContext> HandlerSource<'a, C> for Option<&'a ApiEndpoint<C>> {
+    open spec fn items(self) -> Seq<ApiEndpoint<C>> { match self { Some(x) => seq![*x], None => Seq::empty() } }
+}
 #[verifier::external_body]
-pub fn find_handler_matching_version<'a, C: ServerContext>(handlers: &'a [ApiEndpoint<C>], version: Option<&Version>) -> (r: Option<&'a ApiEndpoint<C>>)
+pub fn find_handler_matching_version<'a, C: ServerContext, S: HandlerSource<'a, C>>(handlers: S, version: Option<&Version>) -> (r: Option<&'a ApiEndpoint<C>>)
     ensures
-        (r is Some) == (first_match(handlers@, version) is Some),
-        r is Some ==> *r->Some_0 == handlers@[first_match(handlers@, version)->Some_0],
+        (r is Some) == (first_match(handlers.items(), version) is Some),
+        r is Some ==> *r->Some_0 == handlers.items()[first_match(handlers.items(), version)->Some_0],
 { unimplemented!() }
 /// `map.values().any(f)` (W1: written as a function call): Iterator::any has no vstd contract
 #[verifier::external_body]
